@@ -138,7 +138,8 @@ def _effect(repo, m, ci, call, env, effects, bound=None):
     if n == "self.send_message":
         arg = kwarg(call, "msg") or (call.args[0] if call.args else None)
         effects.append(("send", _msg_desc(arg, env)))
-    elif n == "self.notify_postprocess_message":
+    elif n == "self.notify_postprocess_message" or n.endswith("postprocess_recv_messages.put"):
+        # delivery to the application: through the helper, or its body written in place
         effects.append(("deliver", ast.unparse(call.args[0]) if call.args else ""))
     elif n.startswith("self.set_") and n.endswith("_state"):
         st = n[len("self.set_"):-len("_state")]
